@@ -227,6 +227,169 @@ def check_order_tables(run, ix, rule):
         run.sample(rule, '%s: %d class pairs' % (kern, n))
 
 
+# ---------------------------------------------------------------------------------------------------------------
+# C-R16: interval kernels on zero / infinite endpoints, at the level of endpoint classes
+IK = ['NINF', 'N-', 'Z', 'N+', 'PINF']
+REP_LO = {'NINF': float('-inf'), 'N-': -2.0, 'Z': 0.0, 'N+': 1.0, 'PINF': float('inf')}
+REP_HI = {'NINF': float('-inf'), 'N-': -1.0, 'Z': 0.0, 'N+': 2.0, 'PINF': float('inf')}
+
+
+def _cls(x):
+    if x != x:
+        return 'NAN'
+    if x == float('inf'):
+        return 'PINF'
+    if x == float('-inf'):
+        return 'NINF'
+    return 'Z' if x == 0 else ('N+' if x > 0 else 'N-')
+
+
+def _true_range(op, S, T):
+    """inf and sup of {x op y : x in S, y in T} for concrete representative intervals (open at infinite ends),
+    None when the operation is not defined on the whole box (0 in T for division)"""
+    (a, b), (c, d) = S, T
+    inf = float('inf')
+
+    def mul(x, y):
+        return 0.0 if (x == 0 or y == 0) else x * y
+    if op == 'add':
+        return a + c, b + d
+    if op == 'sub':
+        return a - d, b - c
+    if op == 'mul':
+        ps = [mul(a, c), mul(a, d), mul(b, c), mul(b, d)]
+        return min(ps), max(ps)
+    if op == 'div':
+        def dv(x, y):
+            if abs(y) == inf:
+                return 0.0 if abs(x) != inf else None
+            return x / y
+        if c == 0 and d == 0:
+            return None
+        if a == 0 and b == 0 and (c <= 0 <= d):
+            return 0.0, 0.0
+        if c < 0 < d:
+            return -inf, inf
+        if c == 0:                      # y in (0, d]
+            lo = -inf if a < 0 else dv(a, d)
+            hi = inf if b > 0 else dv(b, d)
+            return (lo, hi) if None not in (lo, hi) else None
+        if d == 0:                      # y in [c, 0)
+            lo = -inf if b > 0 else dv(b, c)
+            hi = inf if a < 0 else dv(a, c)
+            return (lo, hi) if None not in (lo, hi) else None
+        qs = [x / y if abs(y) != inf else 0.0 if abs(x) != inf else None for x in (a, b) for y in (c, d)]
+        if None in qs:
+            return None
+        return min(qs), max(qs)
+
+
+def check_interval_endpoints(run, ix, rule):
+    """mpi_add / sub / mul / div on every valid combination of endpoint classes (-inf, negative, 0, positive,
+    +inf; lower <= upper; no interval that is a single point at infinity).  The kernels' explicit handling of zero
+    and infinite endpoints (inf * 0 -> nan fix-ups, division by intervals touching zero) is interpreted with
+    arithmetic on two normal numbers summarised by signs; the classes of the returned endpoints must enclose the
+    exact range of the operation on representative intervals: lower class <= class of the true infimum, upper
+    class >= class of the true supremum, never nan."""
+    import itertools
+    from ..classdom import Tuple as CTuple
+
+    def lookup(name):
+        for rel in ('mpmath/libmp/libmpi.py', LIBMPF):
+            f = ix.find_func(rel, name)
+            if f is not None and f.parent is None:
+                return f.node
+        if name == 'mpf_mul':
+            return ix.find_func(LIBMPF, 'python_mpf_mul').node
+        return None
+    rank = dict((k, i) for i, k in enumerate(IK))
+    total = 0
+    for kern, op in (('mpi_add', 'add'), ('mpi_sub', 'sub'), ('mpi_mul', 'mul'), ('mpi_div', 'div')):
+        if lookup(kern) is None:
+            raise AnalysisError('%s vanished' % kern)
+        bad = []
+        n = 0
+        undec = 0
+        for sa, sb, ta, tb in itertools.product(IK, IK, IK, IK):
+            if rank[sa] > rank[sb] or rank[ta] > rank[tb]:
+                continue
+            if (sa == sb and sa in ('NINF', 'PINF')) or (ta == tb and ta in ('NINF', 'PINF')):
+                continue
+            tr = _true_range(op, (REP_LO[sa], REP_HI[sb]), (REP_LO[ta], REP_HI[tb]))
+            if tr is None or tr[0] != tr[0] or tr[1] != tr[1]:
+                continue
+            want_lo, want_hi = _cls(tr[0]), _cls(tr[1])
+            s = CTuple([mk(sa, '_sa'), mk(sb, '_sb')])
+            t = CTuple([mk(ta, '_ta'), mk(tb, '_tb')])
+            out = set()
+            work = [()]
+            k = 0
+            while work:
+                ch = work.pop()
+                k += 1
+                if k > 4000:
+                    raise AnalysisError('%s: too many undetermined tests' % kern)
+                it = KernelInterp(lookup, {}, ch)
+                it.summarise_normals = True
+                try:
+                    r = it.run(lookup(kern), [s, t, Int(53)])
+                    out.add(label(r))
+                except NeedChoice:
+                    work.append(ch + (True,))
+                    work.append(ch + (False,))
+                except Raised as e:
+                    out.add('!' + e.what.split('(')[0])
+                except Arith:
+                    out.add('ARITH')
+                except Unsupported as u:
+                    raise AnalysisError('%s: %s' % (kern, u))
+            if any('ARITH' in o for o in out):
+                undec += 1
+                continue
+            n += 1
+            ok = True
+            why = None
+            for o in out:
+                parts = o.strip('()').split(', ')
+                if len(parts) != 2:
+                    ok, why = False, 'outcome %s' % o
+                    break
+                lo, hi = parts
+                for e_, want, side in ((lo, want_lo, 'lower'), (hi, want_hi, 'upper')):
+                    if e_ == 'NAN':
+                        ok, why = False, 'the %s endpoint can be nan' % side
+                    elif e_ == 'FIN':
+                        # a finite value of unknown sign: acceptable only where a finite bound is admissible
+                        if (side == 'lower' and want == 'NINF') or (side == 'upper' and want == 'PINF'):
+                            ok, why = False, 'the %s endpoint is finite but the range is unbounded' % side
+                    elif e_ in rank:
+                        if side == 'lower' and rank[e_] > rank[want]:
+                            ok, why = False, 'lower endpoint class %s lies above the infimum class %s' % (e_, want)
+                        if side == 'upper' and rank[e_] < rank[want]:
+                            ok, why = False, 'upper endpoint class %s lies below the supremum class %s' % (e_, want)
+                    elif e_ in ('ONE',):
+                        pass
+                    else:
+                        ok, why = False, 'endpoint %s' % e_
+            if ok:
+                run.ok(rule)
+            else:
+                bad.append(((sa, sb), (ta, tb), why, sorted(out)))
+                run.rule(rule)['sites'] += 1
+                run.obligations += 1
+        total += n
+        run.stats.setdefault('interval_class_combinations', {})[kern] = {'decided': n, 'undecided': undec}
+        if bad:
+            run.rule(rule)['failed'] += len(bad)
+            S_, T_, why, outs = bad[0]
+            f = ix.func('mpmath/libmp/libmpi.py', kern)
+            run.findings.append(Finding(rule, 'mpmath/libmp/libmpi.py', kern, 'def %s (endpoint classes)' % kern,
+                                        '%s([%s, %s], [%s, %s]): %s (outcomes %s; %d of %d class combinations wrong)'
+                                        % (kern, S_[0], S_[1], T_[0], T_[1], why, outs[:3], len(bad), n), line=f.lineno))
+        run.sample(rule, '%s: %d endpoint-class combinations decided, %d left to arithmetic' % (kern, n, undec))
+    return total
+
+
 def make_lookup(ix):
     def lookup(name):
         for rel in (LIBMPF, LIBELE):
